@@ -78,6 +78,8 @@ XTA_SNIPPETS = [
     "int a; void s(){ ++a; --a; a++; a--; a += 1; a <<= 2; a = a <? 3; a = a >? 3; a = (a imply a) ? 1 : 0; } int q = a' ; "
     "process Y(){ state A; init A; trans A -> A { guard Y.A && deadlock; }; } system Y; progress { a : a + 1; a; } "
     "gantt { G : for (i : int[0,1], j : int[0,1]) true -> i, a > 0 -> 2; }",
+    "dynamic T(); process T(){ } process U(){ state A; init A; trans A -> A { guard forall (p : T) (forall (i : int[0,1]) p.x); }, "
+    "A -> A { guard forall (p : T) (exists (i : int[0,1]) p.x); }; } system U;",
     "int a; void t(int b){ switch (b) { case 1: b++; default: b--; } }",
     "int a; void t2(){ while (true) { break; } }",
     "int a; void t3(){ while (true) { continue; } }",
@@ -368,6 +370,48 @@ def confirm_witness(ctx, b, key, exe_trace, stream_mod):
     return ok, {"last_callback": calls[-1] if calls else None, "end": diedl[:1], "stderr": err[-1500:]}
 
 
+def search_witness(ctx, exe_trace, prod_key, cbs):
+    """grammar-directed search for a failing input of the real library for a production that fails the obligation"""
+    try:
+        cands = grammar.witness_sentences(core.REPO, prod_key, limit=16)
+    except Exception as ex:  # noqa
+        ctx.notes.append("witness search failed for %s: %r" % (prod_key, ex))
+        return None
+    ops = []
+    for mode, nx, text in cands:
+        if mode.startswith("part:") and nx:
+            ops.append(("pre:" + mode[5:], nx, "\x02" + text))      # builtin declarations first (typedef names)
+        ops.append((mode, nx, text))
+    if not ops:
+        return None
+    inp = "".join("%s %d %s\n" % (m, nx, base64.b64encode(t.encode()).decode()) for m, nx, t in ops)
+    rc, out, err, dt = core.run_exe(exe_trace, [], stdin_text=inp, timeout=300)
+    spec_variants = set(cbs)
+    for blk in out.split("OP ")[1:]:
+        ls = blk.split("\n")
+        op = ops[int(ls[0])]
+        calls = [l for l in ls if l.startswith("C ")]
+        if any(l.startswith("END DIED") for l in ls):
+            return {"mode": op[0], "newxta": op[1], "input_text": op[2], "witness": op[2],
+                    "observed": "died inside callback %s" % (calls[-1].split()[1] if calls else "?")}
+        lines = []
+        for l in calls:
+            head, _, tail = l.partition(" | ")
+            hw, tw = head.split(), tail.split()
+            if len(tw) != 19 or int(tw[0]) == 2:
+                continue
+            va = variant_of(hw[1], int(hw[2]), hw[3:], spec_variants)
+            if va:
+                lines.append(("T %s %d %s" % (va[0], va[1], " ".join(tw)), l))
+        if lines:
+            rc2, out2, err2, _ = core.run_exe(core.lean_exe("drv_c01"), [], stdin_text="\n".join(x[0] for x in lines) + "\n")
+            for (tl, raw), res in zip(lines, out2.split("\n")):
+                if res.startswith("MISMATCH") and "needs" in res:
+                    return {"mode": op[0], "newxta": op[1], "input_text": op[2], "witness": op[2],
+                            "observed": "callback ran below its operands: %s (%s)" % (raw, res)}
+    return None
+
+
 def run(ctx):
     cov = ctx.coverage
     for f in os.listdir(os.path.join(core.VERIF, "replays")):     # replays of earlier runs of this check are stale
@@ -453,13 +497,38 @@ def run(ctx):
         if rc2 != 0:
             ctx.proof_broken("drv_c01", err2[-2000:], "driver died")
     scan_cls = {k: v.get("cls", "DocumentBuilder") for k, v in grammar.source_need_scan(core.REPO).items() if not k.startswith("@")}
-    # crashes seen while tracing: key them like the stream does (top callback)
+    # crashes seen while tracing: hand them to the stream module so that one crash has one key, whoever finds it
+    PARTNAME = {v: k for k, v in PARTS.items()}
+    groups = {}
     for op, last_call, l in died:
+        groups.setdefault(last_call, []).append((op, l))
+    for last_call, lst in sorted(groups.items(), key=lambda kv: str(kv[0])):
+        lst.sort(key=lambda x: (len(x[0][2]), x[0][2]))
         key = {"if_end": "stack:IfCondition#2:fragments", "type_array_of_type": "stack:ArrayDecl2#3:types"}.get(last_call)
-        if key is None:
-            key = "crash:%s::%s" % (scan_cls.get(last_call, "DocumentBuilder"), last_call)
-        ctx.finding(key, "real library died inside callback %s while tracing (%s)" % (last_call, l.strip()),
-                    {"mode": op[0], "newxta": op[1], "input_text": op[2], "family": op[3]})
+        reported = False
+        if stream_mod is not None:
+            items = []
+            for op, l in lst[:3]:
+                mode, nx, text = op[0], op[1], op[2]
+                ent = {"xta": ("parse_XTA", None), "xml": ("parse_XML_buffer", None), "prop": ("parseProperty", None)}.get(mode)
+                if mode.startswith("part:"):
+                    ent = ("parse_XTA_part", PARTNAME.get(int(mode[5:])))
+                if ent is None:
+                    continue
+                items.append({"entry": ent[0], "part": ent[1], "newxta": bool(nx), "builder": "doc", "input_text": text,
+                              "family": "trace:" + op[3]})
+            if items:
+                try:
+                    res = stream_mod.triage_inputs(ctx, b, items)
+                    reported = any(k for k, _ in res)
+                except Exception as ex:  # noqa
+                    ctx.notes.append("triage_inputs failed: %r" % ex)
+        if not reported:
+            op, l = lst[0]
+            if key is None:
+                key = "crash:%s::%s" % (scan_cls.get(last_call, "DocumentBuilder"), last_call) if last_call else "crash:before-first-callback"
+            ctx.finding(key, "real library died inside callback %s while tracing (%s)" % (last_call, l.strip()),
+                        {"mode": op[0], "newxta": op[1], "input_text": op[2], "family": op[3]})
     cov["trace_ops_died"] = len(died)
     # 6 part B: sanitizer stream ---------------------------------------------------------------------------------------
     before = len(ctx.violations)
@@ -494,6 +563,12 @@ def run(ctx):
             ctx.proof_broken("correspondence:effect-table", what, "%d traced calls" % cov.get("correspondence_cases", 0))
     for k, s, l in unexplained:
         key = "stack:%s:%s" % (k, s)
+        # search: shortest inputs that drive the real parser through this production (grammar-directed)
+        wit = search_witness(ctx, exe_trace, k, cbs) if have_drv else None
+        if wit is not None:
+            ctx.finding(key, "production fails the stack-discipline obligation (%s); on the real library: %s" % (l, wit["observed"]),
+                        dict(wit, production=k, stack=s, kind="grammar-exception"))
+            continue
         if stream_found or died:
             ctx.notes.append("new exception %s reported next to a concrete failing input" % key)
         ctx.finding(key, "production fails the stack-discipline obligation: " + l, {"production": k, "stack": s, "driver_line": l},
@@ -505,7 +580,7 @@ def run(ctx):
                          "stream: %s" % ("failing input found" if stream_found else "no failing input"))
     if not ok:
         for path, thm, msg in (broken or [("?", "lake build", log[-300:])]):
-            if thm == "utap_exceptions_known" and (unexplained or exc):
+            if (thm == "utap_exceptions_known" or thm.startswith("pinned_")) and (unexplained or exc):
                 if not unexplained:
                     continue
                 # the new exceptions were reported above (with or without input)
